@@ -55,6 +55,13 @@ func checkC06(r *Report, p *Program) {
 	deleteTable(r, p, "R06.7")
 	strategyMapTable(r, p, "R06.8")
 	lastAppliedIsHookAnswer(r, p, "R06.9")
+	// an attachment the decorator creates is recognised as its own on the next sync (marker stamped) — else no method ever applies to it (shared with C16)
+	for _, e := range syncEntries(r, p, "R16.1") {
+		if e.Kind == "decorator" {
+			e := e
+			r16_6(r, p, &e)
+		}
+	}
 	// no memo makes a later sync skip the comparison (shared with C01)
 	r01_ssa(r, p)
 }
